@@ -3,6 +3,8 @@
 (* sequences of byte values / character codes, with the leniency libjwt    *)
 (* documents: the standard alphabet ('+', '/') is accepted on input and    *)
 (* decoding stops at the first '='.                             (C11)      *)
+(* Written without recursion (position-wise), so that 64 KiB strings can   *)
+(* be checked by TLC.                                                      *)
 EXTENDS Naturals, Sequences
 
 \* character codes
@@ -20,44 +22,48 @@ DecVal(c) == IF c >= UpperA /\ c <= UpperA + 25 THEN c - UpperA
              ELSE IF c = Minus \/ c = Plus THEN 62
              ELSE IF c = Under \/ c = Slash THEN 63
              ELSE 64
+InAlphabets(c) == DecVal(c) < 64
 
-RECURSIVE EncFrom(_, _)
-EncFrom(b, i) ==
-  LET n == Len(b) - i + 1 IN
-  IF n <= 0 THEN <<>>
-  ELSE IF n = 1 THEN <<EncChar(b[i] \div 4), EncChar((b[i] % 4) * 16)>>
-  ELSE IF n = 2 THEN <<EncChar(b[i] \div 4), EncChar((b[i] % 4) * 16 + b[i + 1] \div 16),
-                       EncChar((b[i + 1] % 16) * 4)>>
-  ELSE <<EncChar(b[i] \div 4), EncChar((b[i] % 4) * 16 + b[i + 1] \div 16),
-         EncChar((b[i + 1] % 16) * 4 + b[i + 2] \div 64), EncChar(b[i + 2] % 64)>> \o EncFrom(b, i + 3)
-B64Enc(bytes) == EncFrom(bytes, 1)
+\* ---- encoding: n bytes -> 4*(n div 3) + (0 | 2 | 3) characters, no padding
+EncLen(n) == 4 * (n \div 3) + (IF n % 3 = 0 THEN 0 ELSE (n % 3) + 1)
+B64Enc(b) ==
+  LET n == Len(b)
+      Byte(i) == IF i <= n THEN b[i] ELSE 0
+  IN [j \in 1..EncLen(n) |->
+        LET g == (j - 1) \div 4
+            p == (j - 1) % 4
+            b1 == Byte(3 * g + 1) b2 == Byte(3 * g + 2) b3 == Byte(3 * g + 3)
+        IN EncChar(CASE p = 0 -> b1 \div 4
+                     [] p = 1 -> (b1 % 4) * 16 + b2 \div 16
+                     [] p = 2 -> (b2 % 16) * 4 + b3 \div 64
+                     [] OTHER -> b3 % 64)]
 
-\* index of the first '=' (Len + 1 if none)
-RECURSIVE FirstEq(_, _)
-FirstEq(s, i) == IF i > Len(s) THEN i ELSE IF s[i] = Eq THEN i ELSE FirstEq(s, i + 1)
-
-RECURSIVE DecFrom(_, _, _)
-\* decode s[i..m]
-DecFrom(s, i, m) ==
-  LET n == m - i + 1 IN
-  IF n <= 1 THEN <<>>
-  ELSE LET a == DecVal(s[i]) b == DecVal(s[i + 1]) IN
-       IF n = 2 THEN <<a * 4 + b \div 16>>
-       ELSE LET c == DecVal(s[i + 2]) IN
-            IF n = 3 THEN <<a * 4 + b \div 16, (b % 16) * 16 + c \div 4>>
-            ELSE LET d == DecVal(s[i + 3]) IN
-                 <<a * 4 + b \div 16, (b % 16) * 16 + c \div 4, (c % 4) * 64 + d>> \o DecFrom(s, i + 4, m)
+\* ---- decoding
+\* number of characters ahead of the first '=' (all of them if there is none)
+Payload(s) == IF \E i \in 1..Len(s) : s[i] = Eq
+              THEN (CHOOSE i \in 1..Len(s) : s[i] = Eq /\ \A j \in 1..(i - 1) : s[j] # Eq) - 1
+              ELSE Len(s)
+DecLen(p) == 3 * (p \div 4) + (CASE p % 4 = 2 -> 1 [] p % 4 = 3 -> 2 [] OTHER -> 0)
+DecBytes(s, p) ==
+  LET Val(i) == IF i <= p THEN DecVal(s[i]) ELSE 0 IN
+  [i \in 1..DecLen(p) |->
+     LET g == (i - 1) \div 3
+         q == (i - 1) % 3
+         c1 == Val(4 * g + 1) c2 == Val(4 * g + 2) c3 == Val(4 * g + 3) c4 == Val(4 * g + 4)
+     IN CASE q = 0 -> c1 * 4 + c2 \div 16
+          [] q = 1 -> (c2 % 16) * 16 + c3 \div 4
+          [] OTHER -> (c3 % 4) * 64 + c4]
 
 \* Result [ok, any, bytes]:
-\*   ok = FALSE: the text must be rejected (foreign byte ahead of any '=',
-\*               or length 1 modulo 4);
+\*   ok = FALSE: the text must be rejected (a byte outside both alphabets
+\*               ahead of any '=', or length 1 modulo 4);
 \*   any = TRUE: the property is silent (text containing '=', or decoding
 \*               to nothing);
 \*   otherwise bytes is the decoding.
 B64Dec(s) ==
-  LET p == FirstEq(s, 1) - 1                                   \* payload length
-      foreign == \E i \in 1..p : DecVal(s[i]) = 64
+  LET p == Payload(s)
+      foreign == \E i \in 1..p : ~InAlphabets(s[i])
   IN IF foreign \/ Len(s) % 4 = 1 THEN [ok |-> FALSE, any |-> FALSE, bytes |-> <<>>]
      ELSE IF p < Len(s) \/ p < 2 THEN [ok |-> TRUE, any |-> TRUE, bytes |-> <<>>]
-     ELSE [ok |-> TRUE, any |-> FALSE, bytes |-> DecFrom(s, 1, p)]
+     ELSE [ok |-> TRUE, any |-> FALSE, bytes |-> DecBytes(s, p)]
 =============================================================================
